@@ -38,6 +38,14 @@ func runC03(p *Prog, r *Report) {
 	if want("C03.8") {
 		ruleLevelsImmutable(p, r, "C03.8")
 	}
+	if want("C03.13") {
+		// an iterator drops what it pinned exactly once (shared with C07.10)
+		ruleReleaseOnce(p, r, "C03.13")
+	}
+	if want("C03.12") {
+		// a view pins the write buffers it reads (shared with C07.4)
+		ruleMemRefs(p, r, "C03.12")
+	}
 	if want("C03.11") {
 		// a view keeps its tables because the version it pinned keeps its reference: every
 		// session.version() reference is released exactly once (shared with C07.3)
